@@ -467,8 +467,8 @@ func runFaultPlan(t *Trace, faults []FaultSpec, st *Stats) (out faultOutcome, v 
 	}
 	// every later call succeeded: the archive must hold exactly the acknowledged blocks
 	image := ft.bytes()
-	if cfg.Store == "ds" && len(image) == 0 && len(m.Secs) == 0 {
-		return out, nil // a deferred writer that acknowledged nothing and wrote nothing
+	if (cfg.Store == "ds" || cfg.Store == "dw") && len(image) == 0 && len(m.Secs) == 0 {
+		return out, nil // a deferred writer that acknowledged nothing and wrote (or left) nothing
 	}
 	if v := CheckFinalImage("fault", cfg, m.Roots, m.Secs, image); v != nil {
 		return out, v
@@ -704,7 +704,7 @@ func faultFreeWrites(t *Trace) (lens []int, ops []int) {
 
 func GenC16(seed uint64, run int) *Trace {
 	r := RunRng(seed, "C16", "fault", run)
-	store := Pick(r, []string{"rw", "rw", "sc", "sc", "sw", "ss", "ds", "sc-nt", "sw-nt"})
+	store := Pick(r, []string{"rw", "rw", "sc", "sc", "sw", "ss", "ds", "sc-nt", "sw-nt", "dw"})
 	cfg := GenConfig(r, store)
 	if store == "ss" || store == "ds" {
 		cfg.CarV1 = false
